@@ -156,6 +156,33 @@ def run(ctx, rep):
         if not ok:
             rep.violation('S3', vkey('S3', FE.name, 'add_existing', ''), FE.loc(FE.span),
                           'existing short names are not recorded in the generator while the directory is scanned')
+        # S3.every: while a generator is given, *every* entry the scan passes over is recorded - from the `Some(generator)`
+        # arm the loop cannot go on to the next entry (or return) without add_existing (an entry that is about to be
+        # renamed away, a name "given up by the caller", .. still occupies its short name until its slots are rewritten)
+        from analyses import switch_source
+        some_arms = []
+        for bi in FE.reachable():
+            tt = FE.blocks[bi]['term']
+            if tt['k'] != 'switch':
+                continue
+            src = switch_source(FE, bi)
+            if not src or src['kind'] != 'discr':
+                continue
+            from analyses import place_prefix_type
+            ty = place_prefix_type(FE, src['place'], len(src['place']['p']))  # (a parameter, or a closure capture of it)
+            if ty and ty.get('path') == 'core::option::Option' and 'ShortNameGenerator' in (ty.get('s') or ''):
+                some_arms += [x for v, x in tt['targets'] if v == 1]
+        if adds and some_arms:
+            headers = {h for h, body in loops.items() if any(a in body for a in adds)}
+            reach = set(FE.reach_from(some_arms, cut_blocks=set(adds)))
+            ok_e = not (reach & headers) and not (reach & set(FE.return_blocks()))
+            rep.oblige('S3.every', FE.name, ok=ok_e, nontrivial=True)
+            if not ok_e:
+                rep.violation('S3', vkey('S3', FE.name, 'every-entry', ''), FE.loc(FE.span),
+                              'the directory scan can pass over an entry without recording its short name in the alias '
+                              'generator (the record is conditional): the generated alias can collide with that entry')
+        elif adds:
+            rep.machinery('ANCHOR find_entry: no switch on the optional alias generator found')
     # S3.all: an entry that matches the plain form exactly is still recorded for the numbered forms (an existing `QUARTE~1`
     # is both the exact match of the name `quarte~1` and the first numbered candidate)
     AE = facts.fns.get('fatfs::dir::ShortNameGenerator::add_existing')
